@@ -23,12 +23,27 @@ class Prop(RefProp):
     def monitor(self, case, obs):
         out = super().monitor(case, obs)
         if len(case['lib']) == 1:
-            _, pos = engine.emit_pipeline(case['lib'][0][1])
+            _, pos = engine.emit_pipeline(case['lib'][0][1], case.get('flow'))
             valid = {}
             groups = dict((g, s) for g, s in case['lib'][0][1])
             for (g, idx), (line, col) in pos.items():
                 st = groups[g][idx]
                 valid[(line, col)] = engine.BODIES[st['body']][0]
+            # every entry carries the position of the step that recorded it (none for a step written
+            # as a bare module name): compared with where the reference interpreter says it was recorded
+            import refinterp
+            ref = refinterp.reference(case)
+            errs = engine.run_errors(obs)
+            if ref is not None and len(ref.get('error_pos', [])) == len(errs) == len(ref['errors']):
+                for e, p in zip(errs, ref['error_pos']):
+                    if p is None:
+                        continue
+                    want = (None, None) if p[3] else pos.get((p[1], p[2]))
+                    if want is not None and (e.get('line'), e.get('col')) != want:
+                        out.append(fail('line-col', f'runErrors entry of step {e.get("step")!r} (group {p[1]!r}, '
+                                                    f'index {p[2]}) says line/col {(e.get("line"), e.get("col"))}, '
+                                                    f'it is written at {want}'))
+                        break
             for e in engine.run_errors(obs):
                 key = (e.get('line'), e.get('col'))
                 if e.get('line') is None:
